@@ -2,10 +2,10 @@
 from .. import app, engine, fixlib
 from ..runner import Run
 
-PLAN = {"B2/53": 392, "B3/89": 224, "B4/83": 112, "N1/11": 503, "W1/2": 392, "S2": 280, "S3": 67, "I4/97": 168, "U1/7": 56, "H4/3": 112, "P2": 224, "R2/3": 350, "R3": 280, "K7": 280, "T4/5": 175, "Z1": 350, "Q2": 280, "P3": 280, "E1/211": 210, "M3/3": 280, "L6": 280, "G2": 210, "H6": 140, "L7": 350}
+PLAN = {"B2/53": 560, "B3/89": 320, "B4/83": 160, "N1/11": 719, "W1/2": 560, "S2": 400, "S3": 96, "I4/97": 240, "U1/7": 80, "H4/3": 160, "P2": 320, "R2/3": 500, "R3": 400, "K7": 400, "T4/5": 250, "Z1": 500, "Q2": 400, "P3": 400, "E1/211": 300, "M3/3": 400, "L6": 400, "G2": 300, "H6": 200, "L7": 500}
 EVALUATOR = "vp.props.c09:ev"
 # second pass: documented configuration values of the fix-capable rules (rule alone), keyed `<universe>#cfg`
-PLAN_CFG = {"Z1#cfg": 280, "Q2#cfg": 175, "T4/5#cfg": 84, "L6#cfg": 175, "M3/3#cfg": 105, "N1/11#cfg": 210, "W1/2#cfg": 175, "B3/89#cfg": 105, "R3#cfg": 84, "H4/3#cfg": 56, "P3#cfg": 105, "G2#cfg": 210}
+PLAN_CFG = {"Z1#cfg": 400, "Q2#cfg": 250, "T4/5#cfg": 120, "L6#cfg": 250, "M3/3#cfg": 150, "N1/11#cfg": 300, "W1/2#cfg": 250, "B3/89#cfg": 150, "R3#cfg": 120, "H4/3#cfg": 80, "P3#cfg": 150, "G2#cfg": 300}
 EVALUATORS = {"#cfg": "vp.props.c09:ev_cfg"}
 RULE = (
     "documents = sub-lattices of the bounded universes that parse and scan cleanly; configurations per document: default rule set, up to 2 single fix-capable default rules "
